@@ -16,3 +16,11 @@ package oc
 //@   claims frame post
 //@   modifies nothing
 //@   ensures result != nil && fresh(result)
+
+// from C03 "under every route-selection option": a confederation that is configured but not enabled plays no part -
+// no AS is a member of it, so no source is classified as internal to it (compareByASNumber reads that classification)
+//@ props C03
+//@ func (*Global).IsConfederationMember
+//@   requires g != nil
+//@   claims post
+//@   ensures result ==> g.Confederation.Config.Enabled
